@@ -8,9 +8,9 @@ CHECKS = {
         "groups": [
             {"pkg": "./server/commitlog", "overlay": "commitlog", "pkgname": "commitlog",
              "harnesses": [
-                 {"name": "VerifC01AppendRead", "quick": {"batches": 2}, "thorough": {"batches": 3},
+                 {"name": "VerifC01AppendRead", "quick": {"batches": 2}, "thorough": {"batches": 3, "shapes": 2}, "max-paths": 1000000,
                   "covers": ["done"], "targets": ["commitLog).Append", "Reader).ReadMessage"]},
-                 {"name": "VerifC01Ops", "quick": {"steps": 2}, "thorough": {"steps": 3},
+                 {"name": "VerifC01Ops", "quick": {"steps": 2}, "thorough": {"steps": 3, "shapes": 2, "headers": 1}, "max-paths": 1000000,
                   "covers": ["done", "append", "append-set", "truncate", "reopen"], "targets": ["commitLog).Truncate", "commitLog).AppendMessageSet"]},
                  {"name": "VerifC01LiveReader", "quick": {"msgs": 3}, "thorough": {"msgs": 4},
                   "covers": ["done", "truncate-above-reader", "append-after-reader"], "targets": ["commitLog).Truncate"]},
@@ -32,7 +32,7 @@ CHECKS = {
              ]},
             {"pkg": "./server", "overlay": "server", "pkgname": "server",
              "harnesses": [
-                 {"name": "VerifC02Failovers", "replay": "interpreted", "max-paths": 3000000, "tiers": ["thorough"],
+                 {"name": "VerifC02Failovers", "replay": "interpreted", "max-paths": 3000000, "quick": {"m1": 2, "m2": 1, "m3": 1}, "thorough": {"m1": 2, "m2": 2, "m3": 2},
                   "covers": ["done", "second-term", "third-term"],
                   "targets": ["partition).truncateUncommitted", "partition).handleLeaderOffsetRequest", "partition).sendLeaderOffsetRequest", "commitLog).NewLeaderEpoch"]},
              ]},
@@ -114,7 +114,7 @@ CHECKS = {
         "groups": [
             {"pkg": "./server", "overlay": "server", "pkgname": "server",
              "harnesses": [
-                 {"name": "VerifC06FSM", "quick": {"ops": 3, "kinds": 12}, "thorough": {"ops": 4, "kinds": 12}, "replay": "interpreted", "max-paths": 2000000,
+                 {"name": "VerifC06FSM", "quick": {"ops": 3, "kinds": 12, "async": 1}, "thorough": {"ops": 4, "kinds": 12, "async": 1}, "replay": "interpreted", "max-paths": 2000000,
                   "covers": ["done", "history-applied", "restored-from-snapshot", "replayed"],
                   "targets": ["Server).Apply", "Server).Snapshot", "Server).Restore", "Server).finishedRecovery", "metadataAPI).AddStream", "metadataAPI).ResumePartition"]},
              ]},
@@ -256,12 +256,18 @@ CHECKS = {
     "C19": {
         "explanation": "symbolic execution of the telemetry collector with the HTTP stack replaced by an effect recorder; the enabled flag is symbolic, the JSON body is produced by a structural model of encoding/json driven by the struct tags of the current source",
         "assumptions": ["net/http (NewRequestWithContext, Header.Set, Client.Do) is an effect recorder", "encoding/json.Marshal is modelled structurally from go/types (field tags -> keys)",
-                        "viper's file/env/flag resolution and the Server.Start gates are outside this harness"],
+                        "viper's own file/environment resolution is a stand-in that answers IsSet/GetBool of every key with an independent symbolic boolean (which key the server asks for is what is checked)",
+                        "Server.Start runs for real with state recovery, NATS connections, listener, Raft set-up, API server and signal handling replaced by no-op stand-ins; log-line formatting (RetentionString, AutoPauseString) and nuid.Next are stubbed"],
         "groups": [
             {"pkg": "./server/telemetry", "overlay": "telemetry", "pkgname": "telemetry",
              "harnesses": [
                  {"name": "VerifC19Collector", "covers": ["done", "enabled", "disabled"], "replay": "interpreted",
                   "targets": ["Collector).Start", "Collector).sendTelemetry", "Collector).collectPayload", "loadOrCreateInstanceID"]},
+             ]},
+            {"pkg": "./server", "overlay": "server", "pkgname": "server",
+             "harnesses": [
+                 {"name": "VerifC19ServerGates", "covers": ["done", "on", "off", "default", "config-file-or-env", "programmatic"], "replay": "interpreted",
+                  "targets": ["parseTelemetryConfig", "Server).Start", "NewDefaultConfig", "Collector).sendTelemetry"]},
              ]},
         ],
     },
@@ -339,3 +345,25 @@ META = {
 
 _PENDING = "check not built yet in this session; see DESIGN.md §4 for the planned harness"
 NOT_APPLICABLE = {("C%02d" % i): _PENDING for i in range(1, 20)}
+
+# Cross-solver diff (thorough tier, at the quick bounds): harnesses in which the
+# solver decides non-trivial constraints. Only solvers that closed the bound on
+# the unchanged tree are listed.
+_BOTH = ["z3-new", "cvc5"]
+XSOLVER = {
+    "VerifC14CheckEnvelope": _BOTH,
+    "VerifC17RoundTrip": _BOTH, "VerifC17ReadTotal": _BOTH, "VerifC17Truncated": _BOTH,
+    "VerifC17Tampered": _BOTH, "VerifC17Substituted": _BOTH,
+    "VerifC16ConditionalAppend": _BOTH, "VerifC09Retention": _BOTH,
+    "VerifC10TimestampLookup": _BOTH, "VerifC10Subscribe": _BOTH, "VerifC10ReaderAcrossCompaction": _BOTH,
+    "VerifC03Committed": _BOTH, "VerifC03Wakeup": _BOTH, "VerifC05Append": _BOTH,
+    "VerifC12Assignments": _BOTH, "VerifC13GroupSubscribe": _BOTH,
+    "VerifC01LiveReader": _BOTH,
+    # cvc5 needs ~400 s on these two at the quick bounds (z3: 40 s / 150 s): only z3 5.1 is diffed
+    "VerifC01AppendRead": ["z3-new"], "VerifC08Compact": ["z3-new"],
+}
+for _c in CHECKS.values():
+    for _g in _c["groups"]:
+        for _h in _g["harnesses"]:
+            if _h["name"] in XSOLVER:
+                _h["xsolver"] = XSOLVER[_h["name"]]
